@@ -59,6 +59,7 @@ public:
     QXmppServerPrivate(QXmppServer *qq);
     void loadExtensions(QXmppServer *server);
     bool routeData(const QString &to, const QByteArray &data);
+    void removeFromRoutingTables(QXmppIncomingClient *client);
     void startExtensions();
     void stopExtensions();
 
@@ -170,6 +171,26 @@ bool QXmppServerPrivate::routeData(const QString &to, const QByteArray &data)
 
         // S2S is disabled, failed to route data
         return false;
+    }
+}
+
+/// Removes every routing table entry that points to \a client, whatever JID it was registered under.
+void QXmppServerPrivate::removeFromRoutingTables(QXmppIncomingClient *client)
+{
+    for (auto itr = incomingClientsByJid.begin(); itr != incomingClientsByJid.end();) {
+        if (itr.value() == client) {
+            itr = incomingClientsByJid.erase(itr);
+        } else {
+            ++itr;
+        }
+    }
+    for (auto itr = incomingClientsByBareJid.begin(); itr != incomingClientsByBareJid.end();) {
+        itr.value().remove(client);
+        if (itr.value().isEmpty()) {
+            itr = incomingClientsByBareJid.erase(itr);
+        } else {
+            ++itr;
+        }
     }
 }
 
@@ -669,6 +690,10 @@ void QXmppServer::_q_clientConnected()
     // FIXME: at this point the JID must contain a resource, assert it?
     const QString jid = client->jid();
 
+    // a connection is reachable under its current JID only: forget what it was registered as before
+    // (second bind, new login), otherwise the old entry outlives the connection
+    d->removeFromRoutingTables(client);
+
     // check whether the connection conflicts with another one
     QXmppIncomingClient *old = d->incomingClientsByJid.value(jid);
     if (old && old != client) {
@@ -693,18 +718,7 @@ void QXmppServer::_q_clientDisconnected()
     if (d->incomingClients.remove(client)) {
         // remove stream from routing tables
         const QString jid = client->jid();
-        if (!jid.isEmpty()) {
-            if (d->incomingClientsByJid.value(jid) == client) {
-                d->incomingClientsByJid.remove(jid);
-            }
-            const QString bareJid = QXmppUtils::jidToBareJid(jid);
-            if (d->incomingClientsByBareJid.contains(bareJid)) {
-                d->incomingClientsByBareJid[bareJid].remove(client);
-                if (d->incomingClientsByBareJid[bareJid].isEmpty()) {
-                    d->incomingClientsByBareJid.remove(bareJid);
-                }
-            }
-        }
+        d->removeFromRoutingTables(client);
 
         // destroy client
         client->deleteLater();
